@@ -585,6 +585,24 @@ func (fr *Frame) checkEnsuresAt(suffix string) {
 		for _, n := range exceptNames {
 			if tv, ok := fr.params[n]; ok && tv.T.Sort == SRef {
 				except = append(except, tv.T)
+			} else if !isPlainIdent(n) {
+				ex, err := parseCExpr(n)
+				var tv TV
+				if err == nil {
+					ec := fr.evalCtx(fr.entry, fr.entry, token.NoPos)
+					ec.entryPar = true
+					tv, err = ec.eval(ex)
+				}
+				switch {
+				case err != nil:
+					c.stale = append(c.stale, fmt.Sprintf("%s:%d: modifies *%s: %v", fr.con.File, fr.con.Line, n, err))
+				case tv.T.Sort == SRef:
+					except = append(except, tv.T)
+				case tv.T.Sort == SSlice:
+					except = append(except, slPtr(tv.T))
+				default:
+					c.stale = append(c.stale, fmt.Sprintf("%s:%d: modifies *%s: not a pointer, map or slice", fr.con.File, fr.con.Line, n))
+				}
 			} else {
 				c.stale = append(c.stale, fmt.Sprintf("%s:%d: modifies *%s: not a pointer parameter", fr.con.File, fr.con.Line, n))
 			}
